@@ -75,6 +75,7 @@ def _coqc(path, timeout):
 
 
 _RESULT = re.compile(r"=\s*\(\s*(\d+)\s*,\s*\[([0-9;\s]*)\]\s*(?:,\s*(\d+)\s*)?\)")
+LAST_CANARY = [[0, 0]]  # shards in which the comparison self-test discriminated / shards with at least two cases
 LAST_OOD = [None]  # number of out-of-domain items counted by the last run_shards call (None: the property has no OOD term)
 
 
@@ -109,8 +110,16 @@ def run_shards(prop, header, case_type, model_term, eqb_term, cases, shard_size=
                     "Eval vm_compute in (length cases, mismatches_from (fun c => negb (%s (%s (fst c)) (snd c))) 0 cases).\n"
                     % (eqb_term, model_term)
                 )
+            # self-test of the comparison itself: the model's observation for one of the first inputs must differ from the
+            # recorded observation of at least one other case of the shard (a comparison that accepts everything, or
+            # a generator that produces one observation only, would otherwise look like perfect agreement)
+            fh.write(
+                "Eval vm_compute in existsb (fun a => let m := %s (fst a) in existsb (fun b => negb (%s m (snd b))) cases) (firstn 3 cases).\n"
+                % (model_term, eqb_term)
+            )
         paths.append(path)
     bad, errors = [], []
+    LAST_CANARY[0] = [0, 0]
     LAST_OOD[0] = 0 if ood_term else None
     with concurrent.futures.ThreadPoolExecutor(max_workers=JOBS) as ex:
         results = list(ex.map(lambda p: _coqc(p, timeout), paths))
@@ -127,6 +136,10 @@ def run_shards(prop, header, case_type, model_term, eqb_term, cases, shard_size=
             bad.append(k * shard_size + int(tok))
         if ood_term and m.group(3):
             LAST_OOD[0] += int(m.group(3))
+        if len(shards[k]) >= 2:
+            LAST_CANARY[0][1] += 1
+            if re.search(r"=\s*true\s*:\s*bool", flat):
+                LAST_CANARY[0][0] += 1
     for p in paths:
         for ext in (".vo", ".vok", ".vos", ".glob"):
             try:
